@@ -195,6 +195,8 @@ class DefGen:
                     base, tname = e["type"], e["name"]
                     if base not in INT_PACKED:
                         base = tname = rng.choice(INT_PACKED)
+                elif sw["char"] and rng.random() < 0.12:
+                    base = tname = "char"  # a char storage unit is allowed for bit-fields too
                 else:
                     base = tname = rng.choice(INT_PACKED)
                 total = SIZES[base] * 8
@@ -651,4 +653,6 @@ def make_value(cs, spec):
         return getattr(cs, spec["name"])(spec["v"])
     if k == "typed":
         return getattr(cs, spec["t"])(spec["v"])
+    if k == "none":
+        return None
     raise ValueError(k)
